@@ -3,15 +3,11 @@
    every hypothesis on them is explicit. *)
 From Coq Require Import List NArith ZArith Bool Lia Sorted.
 From Coq Require Import ZifyBool ZifyN ZifyNat.
-From LV Require Import Noise.Model.
+From LV Require Import Noise.Model Noise.Spec.
 Import ListNotations.
 Local Open Scope N_scope.
 
 Ltac Zify.zify_post_hook ::= Z.div_mod_to_equations.
-
-(* lexicographic order on (epoch, nonce) *)
-Definition lex_lt (a b : N * N) : Prop :=
-  fst a < fst b \/ (fst a = fst b /\ snd a < snd b).
 
 Lemma lex_lt_trans : forall a b c, lex_lt a b -> lex_lt b c -> lex_lt a c.
 Proof. unfold lex_lt; intros a b c H1 H2; lia. Qed.
@@ -200,8 +196,6 @@ Section Proofs.
       destruct (ideal c' a) as [s1 c1]. destruct (ideal c1 b) as [s2 c2].
       rewrite app_assoc. reflexivity.
   Qed.
-
-  Definition total_len (ms : list (list N)) : N := fold_right (fun p a => len p + a) 0 ms.
 
   Lemma total_len_app : forall a b, total_len (a ++ b) = total_len a + total_len b.
   Proof.
